@@ -219,8 +219,10 @@ bool GetUintEnvironmentVariable(const char *env_var_name, std::uint32_t &value)
                                                     << raw_value << ">, defaulting to "
                                                     << kDefaultValue);
   }
-  else if (actual_end != end || std::numeric_limits<std::uint32_t>::max() < temp)
+  else if (actual_end != end || std::numeric_limits<std::uint32_t>::max() < temp ||
+           raw_value.find('-') != std::string::npos)
   {
+    // strtoull() accepts a leading '-' and negates modulo 2^64: "-18446744073709551615" is 1.
     OTEL_INTERNAL_LOG_WARN("Environment variable <" << env_var_name << "> has an invalid value <"
                                                     << raw_value << ">, defaulting to "
                                                     << kDefaultValue);
